@@ -40,6 +40,10 @@ def _regen_ctor_cnt():
     from ..translate import ctorcnt
     return ctorcnt.regenerate()
 
+def _regen_emit_cnt():
+    from ..translate import emitcnt
+    return emitcnt.regenerate()
+
 
 def _regen_tl_parser():
     from ..translate import tlengine
@@ -95,7 +99,7 @@ SPEC = dict(
              'SOURCE TIE of the EMITTER loops: Cell.order / to_boc / serialize are regenerated from cell.py on every run (Generated/BocEmitSrc.lean); c19_src_order_linear: on EVERY DAG of cell '
              'objects (n distinct cells, e references, any sharing; local no-collision hypothesis) the REGENERATED while stack: loop ends within 1+n+e iterations (budget 1+n+e+1 suffices, '
              'c19_src_while_iterations reads the budget) and returns a valid order - a potential argument over the regenerated loop itself (Proofs/SrcOrderAny.lean), for either push order of the '
-             'references; c19_src_serialize_poly (partial): with that budget the regenerated to_boc is the lookup + layout of exactly n keys carrying e references and the steps counted per loop '
+             'references; c19_src_serialize_layout: with that budget the regenerated to_boc is the lookup + layout of exactly n keys carrying e references and the steps counted per loop '
              '(while, re-insertion, comprehension, serialize + references, index, CRC bytes) are <= 5(n+e)+1+len(output); the for-loops are counted by the lengths of the lists they iterate (read off '
              'the proved equality with the layout model), not by an instrumented translation. '
              'SOURCE TIE of the dictionary parser (c19_src_dict_erase, c19_src_dict_depth_le_keylen, c19_src_dict_output): the text pyrec.py regenerates from parse.py for parse / deserialize_hashmap_node '
@@ -115,7 +119,13 @@ SPEC = dict(
              'constructor; the loops of resolve_mask + calculate_hashes start <= ctorSteps(lv, d) = d + lv(1+2d) iterations with lv = bit_length(level mask)+1 and d = len(refs) (the cost model\'s count, now about the code as written); '
              'for a cell that is not a pruned branch whose children have level <= 3 (closed under the constructor: resolve_mask_le) the level loop starts <= 4 iterations, each touching every reference once per inner loop: <= 4+9d per cell, '
              '<= 4n+9e for n constructor calls carrying e references. The constructor reads the children only through r.mask / get_depth / get_hash (loop-free list lookups). Tick placement validated against CPython on 94 DAGs per change. '
-             'The header comprehensions and the CRC loop (bocCost.hdr / crc), the unary-loop iterations (dictParse steps), the number of bytes fed to SHA-256 (buildBytes) and the TL / order / to_boc for-loop counters remain cost model + measurement. '
+             'For a pruned branch (c19_src_level_loop_pruned) the level mask is the second data byte (not bounded by 7 by the constructor): <= 9 level iterations, no reference loop runs; with no hypothesis but "masks fit a byte", which the constructor '
+             'itself guarantees for every cell type (c19_src_mask_byte), every call is <= 9+19d and n calls <= 9n+19e (c19_src_build_linear_any). '
+             'SOURCE TIE of the emitter\'s loops (c19_src_emit_erase, c19_src_serialize_poly - no longer partial): Cell.serialize / order / to_boc regenerated from cell.py with every List.foldlM / Py.while? a counting loop (harness/translate/emitcnt.py, '
+             'Generated/BocEmitCnt.lean; ticks validated against CPython loop-body events on 54 DAGs). For every DAG of n distinct cells carrying e references and every option set, with the budget 1+n+e+1: ALL loops as written (while stack, its reference-push loop, '
+             'the re-insertion loop, the loop over ordered_cells with the reference loop of serialize inside, the index loop) start <= 5n+4e+6 iterations; with the enumerate comprehension (n) and the Python-level CRC (one per output byte) <= 6(n+e)+6+len(output). '
+             'Proof by a potential argument on the counting while (push-loop ticks + stack before <= stack after + 1 per iteration; post_order grows by <= 1), a fold invariant for serialized_cells_len, and the permutation argument of c19_src_serialize_layout. '
+             'The header comprehensions and the CRC loop (bocCost.hdr / crc), the unary-loop iterations (dictParse steps), the number of bytes fed to SHA-256 (buildBytes) and the TL counters remain cost model + measurement. '
              'TL PARSER ON THE SOURCE: TlSchemas.deserialize is regenerated from tl/generator.py on every run (Generated/TlEngine.lean, shared with C14) and proved equal to the C14 hand model for all inputs; c19_src_tl_total (Properties/C14.lean, which can import that model) proves that for every table with distinct field names and no cycle of bare references and EVERY byte string the regenerated code run with recursion depth (len/4+1)(R+2) and len+2 iterations of its while loop returns what it returns with any larger budgets - no loop or recursion of the code as written runs beyond a bound in the input length (each while iteration consumes >= 1 content byte or breaks; the vector loop is bounded by the guard); the step COUNT stays the cost model\'s (c19_tl_total).',
         level_note='Trusted: Lean kernel (propext, Classical.choice, Quot.sound); Model/Cost.lean as a hand transcription of the loops of '
                    'cell.py (order, to_boc, __init__/calculate_hashes), deserialize.py, hashmap/parse.py, tl/generator.py (upper-bound '
@@ -133,8 +143,9 @@ SPEC = dict(
                  ('hashmap/parse.py parse + deserialize_hashmap_node->Generated/HashmapCnt.lean (calls counted)', _regen_dict_cnt),
                  ('deserialize.py deserialize_cell, deserialize->Generated/BocCnt.lean (loop iterations counted)', _regen_boc_cnt),
                  ('tl/generator.py TlSchemas.deserialize->Generated/TlEngine.lean (c19_src_tl_total, stated in Properties/C14.lean)', _regen_tl_parser),
-                 ('cell.py Cell.__init__, resolve_mask, calculate_hashes->Generated/CellCtorCnt.lean (loop iterations counted)', _regen_ctor_cnt)],
-    lean_targets=['TonVerif.Proofs.SrcBocDeser', 'TonVerif.Proofs.SrcOrderAny', 'TonVerif.Proofs.SrcBocAny', 'TonVerif.Proofs.SrcBocCnt', 'TonVerif.Proofs.SrcTlParser', 'TonVerif.Proofs.SrcCtorCnt'],
+                 ('cell.py Cell.__init__, resolve_mask, calculate_hashes->Generated/CellCtorCnt.lean (loop iterations counted)', _regen_ctor_cnt),
+                 ('cell.py Cell.serialize, order, to_boc->Generated/BocEmitCnt.lean (loop iterations counted)', _regen_emit_cnt)],
+    lean_targets=['TonVerif.Proofs.SrcBocDeser', 'TonVerif.Proofs.SrcOrderAny', 'TonVerif.Proofs.SrcBocAny', 'TonVerif.Proofs.SrcBocCnt', 'TonVerif.Proofs.SrcTlParser', 'TonVerif.Proofs.SrcCtorCnt', 'TonVerif.Proofs.SrcEmitCnt'],
     design_ref='DESIGN.md §6 C19',
     rule='one case = one public call on one adversarial input with its model step count; families: double/triple-ref chains 10..1000, '
          'depth-1023 chains, diamonds, wide sharing, random DAGs (order, to_boc x flag sets, from_boc, construction); BoC byte strings '
